@@ -21,8 +21,14 @@ DhVals == MapSeq(SetToSeq({<<a, b, c>> : a \in 1..4, b \in 1..4, c \in 1..4}),
 (* integers with sign octets, leading zeros and high bits: opaque bytes, kept as sent (len(ys) = len(p) + 1 included) *)
 DhSignVals == << [p |-> <<200, 1>>, g |-> <<2>>, ys |-> <<0, 200, 7>>], [p |-> <<0, 200, 1>>, g |-> <<0, 2>>, ys |-> <<0, 0, 129>>],
                  [p |-> Fill(1, 128), g |-> <<5>>, ys |-> <<0>> \o [j \in 1..128 |-> 255]], [p |-> <<127>>, g |-> <<0>>, ys |-> <<0, 128>>],
-                 [p |-> <<255>>, g |-> <<255>>, ys |-> <<255, 255>>], [p |-> <<1>>, g |-> <<>>, ys |-> <<0, 255>>] >>
-PointVals == [k \in 1..3 |-> [point |-> Lens3[k]]] \o << [point |-> <<0>>], [point |-> <<0, 0, 0, 0>>] >>
+                 [p |-> <<255>>, g |-> <<255>>, ys |-> <<255, 255>>], [p |-> <<1>>, g |-> <<>>, ys |-> <<0, 255>>],
+                 [p |-> <<0, 200>> \o Fill(1, 7), g |-> <<2>>, ys |-> <<0, 129>> \o Fill(2, 7)],           \* 9 bytes = sign octet + 64 bits
+                 [p |-> <<0, 255>> \o Fill(3, 15), g |-> <<0, 128>> \o Fill(4, 15), ys |-> Fill(5, 16)],   \* 17 bytes
+                 [p |-> <<0, 128>> \o Fill(6, 255), g |-> <<5>>, ys |-> <<0, 255>> \o Fill(7, 255)],       \* 257 bytes = sign octet + 2048 bits
+                 [p |-> <<0, 0, 200>> \o Fill(8, 6), g |-> <<0>>, ys |-> <<0>>] >>
+PointVals == [k \in 1..3 |-> [point |-> Lens3[k]]] \o << [point |-> <<0>>], [point |-> <<0, 0, 0, 0>>],
+               (* format bytes of SEC1 points with too little or odd-sized coordinate data: opaque all the same *)
+               [point |-> <<4>>], [point |-> <<4, 1>>], [point |-> <<4, 1, 2>>], [point |-> <<2>>], [point |-> <<3, 7>>], [point |-> <<0, 4>>] >>
 Named(g) == [ct |-> 3, content |-> [t |-> "NamedGroup", g |-> g]]
 Expl(k) == [ct |-> 1, content |-> [t |-> "ExplicitPrime", p |-> Lens3[k], a |-> Lens3[(k % 3) + 1], b |-> Lens3[((k + 1) % 3) + 1],
                                     base |-> Lens3[k], order |-> Lens3[(k % 3) + 1], cofactor |-> Lens3[((k + 1) % 3) + 1]]]
@@ -69,6 +75,7 @@ CurveLayoutCases ==
   Concat([ct1 \in 1..256 |->
     Concat([l \in 1..Len(Layouts) |->
       << Mk("curvelayout", "parse_ec_parameters", "", 0, <<ct1 - 1>> \o Layouts[l] \o <<9, 9, 9>>, <<>>, 0),
+         [kind |-> "curvesel", fn |-> "ECParametersContent::parse", sub |-> "", ext |-> 0, ct |-> ct1 - 1, bytes |-> Layouts[l] \o <<9, 9, 9>>, want |-> <<>>, extra |-> 0],
          Mk("curvelayout", "parse_ecdh_params", "", 0, <<ct1 - 1>> \o Layouts[l] \o <<2, 4, 4, 9>>, <<>>, 0) >>])])
 
 (* content + signature under both values of the negotiation flag *)
@@ -136,7 +143,7 @@ ASSUME TLCSet(1, LongTailCases \o CasCutCases \o PairSweep \o EncCases(DhSignVal
                  \o CurveTypeCases \o CurveLayoutCases \o CasCases)
 Cases == TLCGet(1)
 N == Len(Cases)
-ArgsOf(c) == [NoArgs EXCEPT !.sub = c.sub, !.ext = c.ext]
+ArgsOf(c) == [NoArgs EXCEPT !.sub = c.sub, !.ext = c.ext, !.ct = IF c.kind = "curvesel" THEN c.ct ELSE 0]
 
 VARIABLES i, res, cres
 Init == i = Chunk + 1 /\ i <= N /\ res = Apply(Cases[i].fn, ArgsOf(Cases[i]), Cases[i].bytes)
@@ -158,6 +165,7 @@ CurveTypeRule ==
 CurveLayoutRule ==
   LET c == Cases[i] IN
   (c.kind = "curvelayout" /\ c.bytes[1] \notin {1, 3}) => (res.k \in {"err", "fail"} /\ res.e = "Switch")
+  /\ ((c.kind = "curvesel" /\ c.ct \notin {1, 3}) => (res.k \in {"err", "fail"} /\ res.e = "Switch"))
 (* SignatureFormIffFlag: under the other flag the same bytes are read in the other form *)
 SignatureFormIffFlag ==
   LET c == Cases[i] IN
@@ -169,6 +177,7 @@ Pin ==
   IF c.kind \in {"enc", "cas"} THEN "full"
   ELSE IF c.kind = "cut" THEN "novalue"
   ELSE IF c.kind \in {"curvetype", "curvelayout"} THEN (IF res.k = "ok" THEN "full" ELSE IF c.bytes[1] \notin {1, 3} THEN "err_kind" ELSE "novalue")
+  ELSE IF c.kind = "curvesel" THEN (IF res.k = "ok" THEN "full" ELSE IF c.ct \notin {1, 3} THEN "err_kind" ELSE "novalue")
   ELSE (IF res.k = "ok" THEN "full" ELSE IF res.k \in {"err", "fail"} THEN "reject" ELSE "novalue")
 EmitCase ==
   LET c == Cases[i] IN
